@@ -9,7 +9,7 @@ From Coq Require Export List ZArith NArith Bool Lia.
 Export ListNotations.
 Open Scope N_scope.
 
-Definition atom := N.
+Notation atom := N (only parsing).
 Definition key := (atom * atom * atom)%type.      (* namespace, type, id *)
 
 Record res := mkRes {
